@@ -1,4 +1,5 @@
 import Firebolt.Properties.C01
+import Firebolt.Properties.ExecFlow
 /-!
 # C05 — Per-node concurrency bound, setup-before-use, and race-free framework state
 -/
@@ -13,5 +14,17 @@ theorem skeleton_runNode : Generated.runNode = Expected.runNode := by rfl
 theorem skeleton_setupNodes : Generated.setupNodes = Expected.setupNodes := by rfl
 theorem skeleton_execute : Generated.execute = Expected.execute := by rfl
 theorem skeleton_prepareSource : Generated.prepareSource = Expected.prepareSource := by rfl
+
+
+open Firebolt.Exec in
+/-- at most `workers` processing calls of a node are in progress, in every state of the component model -/
+theorem at_most_workers_in_process (c : Cfg) (s : St) : cnt c.W s.pc Pc.inProc ≤ c.W := concurrency_bound c s
+
+open Firebolt.Exec in
+/-- the lifecycle coordination is safe under every interleaving (no send on closed / double close), Shutdown never overlaps a processing call -/
+theorem lifecycle_safe_any_schedule (c : Cfg) (caps : Nat → Nat) (disc : Nat → Bool) (as : List Act) (s : St)
+    (hr : run c (init c caps disc) as = some s) :
+    s.panic = false ∧ (s.shutStarted = true → ∀ w, w < c.W → (s.pc w).live = false) :=
+  ⟨reachable_no_panic c caps disc as s hr, fun hs w hw => shutdown_after_processing c s (reachable_inv c caps disc as s hr) hs w hw⟩
 
 end Firebolt.C05
